@@ -230,7 +230,9 @@ pub fn run(args: &Args, corpus: &[String]) -> Value {
     let max_len = args.num("maxlen", if args.thorough() { 6 } else { 4 }) as usize;
     let mut ctx = Ctx { max_ratio_x1000: 0, worst: String::new(), budget_c: args.num("budgetc", 50) };
     let mut n_enum = 0;
-    for (set, ml) in [(&SET_A, max_len), (&SET_B, max_len.saturating_sub(1).max(3)), (&SET_C, max_len.saturating_sub(1).max(3))] {
+    let lite_early = args.num("lite", 0) != 0;
+    let ml_bc = if lite_early { max_len } else { max_len.saturating_sub(1).max(3) };
+    for (set, ml) in [(&SET_A, max_len), (&SET_B, ml_bc), (&SET_C, ml_bc)] {
         n_enum += enumerate_seqs(&set[..], ml, shard, shards, |s| check_one(&mut rep, &mut ctx, s, "enum"));
     }
     rep.count("sequences_enumerated", n_enum);
@@ -242,10 +244,11 @@ pub fn run(args: &Args, corpus: &[String]) -> Value {
     // deep nesting (only shard 0 does the deterministic families)
     // `--lite 1` (interpreted runs under Miri): shallow nesting only, no scaling families
     let lite = args.num("lite", 0) != 0;
-    if shard == 0 {
+    if shard == 0 || lite {
         for kind in 0..17 {
             for depth in [1usize, 2, 5, 20, 60, 120, 200] {
-                if lite && depth > 20 {
+                // interpreted run: shallow nesting only, and the families are spread over the shards
+                if lite && (depth > 20 || depth == 2 || (kind as u64 + depth as u64) % shards != shard) {
                     continue;
                 }
                 let s = nesting_family(kind, depth);
@@ -288,7 +291,7 @@ pub fn run(args: &Args, corpus: &[String]) -> Value {
     let n_rand = args.num("random", if args.thorough() { 400_000 } else { 20_000 }) / shards;
     let all: Vec<&str> = SET_A.iter().chain(SET_B.iter()).chain(SET_C.iter()).copied().chain(["1.5", "'c'", "0x1F", "true", "..", "...", "<<", ">=", "&&", "||", "~", "*", "/", "%", "+", "distinct", "mut", "extern", "return", "break", "continue", "loop", "try", "catch", "as", "// c\n", "\n", "é", "\u{a0}", "\\"]).collect();
     for _ in 0..n_rand {
-        let ml = if rng.chance(1, 20) { 400 } else { 24 };
+        let ml = if lite_early { 12 } else if rng.chance(1, 20) { 400 } else { 24 };
         let len = 1 + rng.below(ml);
         let mut s = String::new();
         for _ in 0..len {
